@@ -63,6 +63,9 @@ GOAL_SPLITS = [
     [[], [], [], []],
     [[["p", "o1"]], [["p", "o1"], ["r"]], [["q", "o1", "o2"]], [["r"]]],
     [[["q", "o1", "o2"], [">=", ["f", "o1"], "2"]], [[">=", ["f", "o1"], "2"], ["p", "k"]], [["=", ["g"], "0.5"]], []],
+    # duplicates inside ONE file (round 20: the duplicate test that only looked at the files combined before)
+    [[[">=", ["f", "o1"], "2"], ["p", "o1"], [">=", ["f", "o1"], "2"], ["p", "o1"]], [["=", ["g"], "0.5"], ["r"], ["=", ["g"], "0.5"]],
+     [[">=", ["f", "o1"], "2"], ["=", ["g"], "0.5"], ["=", ["g"], "0.5"]], [["r"], ["r"]]],
 ]
 
 
